@@ -275,3 +275,22 @@ CHECKS["C15"] = {
         {"variant": "tsan", "engine": "stress", "procs": 2, "rounds_quick": 1000, "rounds_thorough": 20000},
     ],
 }
+
+CHECKS["C08"] = {
+    "src": "C08.cpp",
+    "level": "exploration",
+    "rule": "handle life-cycle scripts: 1-3 threads x 1-4 cycles (acquire by lock / try / try_for / try_until, exclusive or shared side, hold, "
+            "release by destruction / unlock() / move-construction with the moved-from handle destroyed first or last / move-assignment over a "
+            "handle holding another wrapper's lock) on guarded, guarded_opt(on/off), shared_guarded, shared_guarded_opt(on/off), ordered_guarded, "
+            "deferred_guarded x 4 mutex types. The shim's per-thread shadow lock set decides: bool(handle) == (one more lock held), released exactly "
+            "once and only by the owning handle, null after unlock(), nothing held at quiescence, a further try-acquisition succeeds; disabled "
+            "mode: non-null, zero mutex operations; stress: a timed attempt returns within duration + 2 s. Non-trivial: some attempt failed (null "
+            "handle), or disabled mode, or a solo round (try on a free lock must succeed); distinct = (program, schedule, outcome counts).",
+    "assumptions": ["a moved-from handle may still test true (not forbidden by the property, not judged)", "spurious try_lock failure is judged only in single-threaded rounds"],
+    "runs": [
+        {"variant": "plain", "engine": "serial", "procs": 6, "rounds_quick": 6000, "rounds_thorough": 120000},
+        {"variant": "plain", "engine": "stress", "procs": 4, "rounds_quick": 3000, "rounds_thorough": 60000},
+        {"variant": "asan", "engine": "stress", "procs": 2, "rounds_quick": 1500, "rounds_thorough": 30000},
+        {"variant": "tsan", "engine": "stress", "procs": 2, "rounds_quick": 1000, "rounds_thorough": 20000},
+    ],
+}
